@@ -109,7 +109,8 @@ SURVEY_ALIAS_GROUPS = [["relevant", "relevance"], ["calculation", "calculate"], 
                        ["choice_filter", "choice filter"], ["guidance_hint", "guidance hint"]]
 LIST_ALIAS_GROUPS = [["list_name", "list name"], ["label", "caption"], ["name", "value"], ["image", "media::image"]]
 SETTINGS_ALIAS_GROUPS = [["form_title", "set_form_title", "title"], ["form_id", "set_form_id", "id_string"]]
-TYPE_GROUPS = [["select_one", "select one", "select1"], ["select_multiple", "select all that apply"], ["integer", "int"],
+TYPE_GROUPS = [["select_one_from_file", "select one from file"], ["select_multiple_from_file", "select multiple from file"],
+               ["select_one", "select one", "select1"], ["select_multiple", "select all that apply"], ["integer", "int"],
                ["image", "photo"], ["begin group", "begin_group"], ["end group", "end_group"], ["begin repeat", "begin_repeat"], ["end repeat", "end_repeat"]]
 YES = ["yes", "true()", "TRUE", "True", "true", "Yes", "YES"]
 NO = ["no", "false()", "FALSE", "False", "false", "No", "NO"]
@@ -141,11 +142,49 @@ def to_xlsx(layout) -> bytes:
     return bio.getvalue()
 
 
-def run(layout):
+def to_csv(layout) -> str:
+    import csv
+    sio = io.StringIO(newline="")
+    w = csv.writer(sio, quoting=csv.QUOTE_ALL, lineterminator="\n")
+    for sh in layout:
+        w.writerow([sh["name"]])
+        w.writerow(["", *sh["headers"]])
+        for r in sh["rows"]:
+            w.writerow(["", *[("" if r is None or r.get(h) is None else r.get(h)) for h in sh["headers"]]])
+    return sio.getvalue()
+
+
+def md_ok(layout) -> bool:
+    for sh in layout:
+        cells = [sh["name"], *sh["headers"]] + [v for r in sh["rows"] if r for v in r.values() if v is not None]
+        if any(("|" in c or "\n" in c or "\r" in c or "\x0b" in c or "\x0c" in c or "\x1c" in c or "\x1d" in c or "\x1e" in c or "\x85" in c
+                or "\u2028" in c or "\u2029" in c) for c in cells if isinstance(c, str)):
+            return False
+        if any(not isinstance(c, str) for c in cells):
+            return False
+    return True
+
+
+def to_md(layout) -> str:
+    lines = []
+    for sh in layout:
+        lines.append(f"| {sh['name']} |")
+        lines.append("| | " + " | ".join(sh["headers"]) + " |")
+        for r in sh["rows"]:
+            lines.append("| | " + " | ".join(("" if r is None or r.get(h) is None else r.get(h)) for h in sh["headers"]) + " |")
+    return "\n".join(lines) + "\n"
+
+
+def run(layout, carrier="xlsx"):
     from pyxform.xls2xform import convert
     from pyxform.errors import PyXFormError
     try:
-        r = convert(to_xlsx(layout), file_type=".xlsx")
+        if carrier == "csv":
+            r = convert(to_csv(layout), file_type=".csv")
+        elif carrier == "md":
+            r = convert(to_md(layout), file_type=".md")
+        else:
+            r = convert(to_xlsx(layout), file_type=".xlsx")
         return "ok", r.xform, list(r.warnings)
     except PyXFormError as e:
         return "pyxerr", str(e), []
@@ -171,7 +210,7 @@ def rename_header(sh, old, new):
 
 def sheet(layout, name):
     for sh in layout:
-        if sh["name"].lower() == name:
+        if sh["name"].strip().lower() == name:
             return sh
     return None
 
@@ -183,23 +222,25 @@ def canonical_first(tok):
 KNOWN_COLUMNS = {
     "survey": {"type", "name", "label", "hint", "guidance_hint", "relevant", "relevance", "required", "required_message", "requiredmsg", "constraint",
                "constraint_message", "constraining_message", "calculation", "calculate", "default", "read_only", "readonly", "appearance", "parameters",
-               "choice_filter", "repeat_count", "count", "trigger", "caption", "image", "audio", "video", "media", "bind", "control", "instance", "body"},
+               "choice_filter", "repeat_count", "count", "trigger", "caption", "image", "audio", "video", "media", "bind", "control", "instance", "body",
+               "intent", "disabled"},
     "choices": {"list_name", "name", "label", "caption", "value", "image", "audio", "video", "media"},
     "settings": {"form_title", "set_form_title", "title", "form_id", "set_form_id", "id_string", "version", "default_language", "instance_name", "public_key",
-                 "submission_url", "style", "name", "namespaces", "prefix", "delimiter", "auto_send", "auto_delete", "instance_xmlns", "sms_keyword"},
+                 "submission_url", "style", "name", "namespaces", "prefix", "delimiter", "auto_send", "auto_delete", "instance_xmlns", "sms_keyword",
+                 "omit_instanceid", "allow_choice_duplicates"},
 }
 
 
 def t_header_case(rng, layout, log):
     for sh in layout:
-        if sh["name"].lower() not in ("survey", "choices", "settings"):
+        if sh["name"].strip().lower() not in ("survey", "choices", "settings"):
             continue
         for h in list(sh["headers"]):
             if rng.random() < 0.35:
                 first, rest = split_header(h)
                 if not first.isascii() or "::" in first or ":" in first:
                     continue
-                if canonical_first(first) not in KNOWN_COLUMNS[sh["name"].lower()]:
+                if canonical_first(first) not in KNOWN_COLUMNS[sh["name"].strip().lower()]:
                     continue          # an unknown column (e.g. an extra choices column) is data: its spelling is kept as written
                 v = rng.choice([first.upper(), first.title(), f" {first}", f"{first}  ", first.replace("_", " "), first.replace("_", "  ").upper()])
                 if canonical_first(v) != canonical_first(first):
@@ -231,7 +272,7 @@ def t_alias(rng, layout, log):
 
 def t_delim(rng, layout, log):
     for sh in layout:
-        if sh["name"].lower() not in ("survey", "choices"):
+        if sh["name"].strip().lower() not in ("survey", "choices"):
             continue
         hs = sh["headers"]
         if not any("::" in h for h in hs):
@@ -344,8 +385,8 @@ def t_whitespace(rng, layout, log):
 
 def t_sheet_case(rng, layout, log):
     for sh in layout:
-        if sh["name"].lower() in ("survey", "choices", "settings", "external_choices", "entities") and rng.random() < 0.5:
-            new = rng.choice([sh["name"].upper(), sh["name"].title()])
+        if sh["name"].strip().lower() in ("survey", "choices", "settings", "external_choices", "entities") and rng.random() < 0.5:
+            new = rng.choice([sh["name"].upper(), sh["name"].title(), " " + sh["name"], sh["name"].title() + "  "])      # case and spaces around the name
             log.append(f"sheet {sh['name']!r} -> {new!r}")
             sh["name"] = new
 
@@ -360,8 +401,8 @@ def t_permute(rng, layout, log):
         log.append("sheets permuted")
 
 
-def t_blank_rows(rng, layout, log):
-    """returns {sheet: old row number -> new row number}"""
+def t_blank_rows(rng, layout, log, top=False):
+    """returns {sheet: old row number -> new row number}; top=True also puts blank rows directly under the header row"""
     maps = {}
     for name in ("survey", "choices"):
         sh = sheet(layout, name)
@@ -369,7 +410,7 @@ def t_blank_rows(rng, layout, log):
             continue
         new_rows, mapping, inserted = [], {}, 0
         for i, r in enumerate(sh["rows"]):
-            if rng.random() < 0.2:
+            if rng.random() < 0.2 or (top and i == 0):
                 k = rng.randint(1, 3)
                 new_rows += [None] * k
                 inserted += k
@@ -447,6 +488,18 @@ def _check(args):
                 del victim[k]
         else:
             ch.insert(ch.index(victim) + 1, dict(victim))
+    if i % 3 == 1:              # columns and types that only some rows use: an intent on a group, the (deprecated) disabled column, a select from a file with its parameters
+        rx = rng_for(seed, PID, "extras", i)
+        grp = [r for r in form["survey"] if r.get("type", "").startswith(("begin group", "begin_group"))]
+        if grp and rx.random() < 0.6:
+            rx.choice(grp)["intent"] = "org.example.app(x=1)"
+        qs = [r for r in form["survey"] if r.get("name") and not r.get("type", "").startswith(("begin", "end"))]
+        if qs and rx.random() < 0.6:
+            for r in rx.sample(qs, min(len(qs), 2)):
+                r["disabled"] = rx.choice(["yes", "no"])
+        if rx.random() < 0.6:
+            form["survey"].append({"type": rx.choice(["select_one_from_file", "select_multiple_from_file"]) + " towns.csv", "name": "town_c13", "label": "Town",
+                                   "parameters": rx.choice(["value=code, label=title", "value=id", "randomize=true, value=v, label=l"])})
     if i % 4 == 1:              # truth values on the rows that open a group or repeat, not only on questions
         forms.add_exotics(rng_for(seed, PID, "exotic", i), form, ["group_truth"], p=1.0)
     if rng.random() < 0.4:      # flag settings read through the yes/no table
@@ -459,24 +512,30 @@ def _check(args):
                 form["choices"].append(dict(form["choices"][-1]))          # a duplicate choice name, legal only with the flag
         form["settings"] = [row]
     base = layout_of(form)
-    st0, x0, w0 = run(base)
+    # the workbook travels as a spreadsheet, or (two cases in five) as csv or md text: the equivalences are properties of the form, not of one reader
+    carrier = {3: "csv", 4: "md"}.get(i % 5, "xlsx")
+    if carrier == "md" and not md_ok(base):
+        carrier = "csv"
+    st0, x0, w0 = run(base, carrier)
     if st0 == "crash":
         return {"i": i, "skip": "crash on the base form: " + x0[:60]}
     lay = copy.deepcopy(base)
     log = []
     for t in rng.sample(TRANSFORMS, rng.randint(1, 5)):
         t(rng, lay, log)
-    maps = t_blank_rows(rng, lay, log) if rng.random() < 0.5 else {}
+    maps = t_blank_rows(rng, lay, log, top=(i % 2 == 1)) if rng.random() < 0.5 or carrier != "xlsx" else {}
     if not log:
         return {"i": i, "skip": "no transformation applied"}
-    st1, x1, w1 = run(lay)
-    desc = {"base": base, "transformed": lay, "transformations": log, "case": i}
+    if carrier == "md" and not md_ok(lay):
+        return {"i": i, "skip": "rewritten form not representable in md"}
+    st1, x1, w1 = run(lay, carrier)
+    desc = {"base": base, "transformed": lay, "transformations": log, "case": i, "carrier": carrier, "row_maps": maps}
     if st0 != st1:
         return {"i": i, "input": desc, "what": f"the original form gives {st0} ({x0[:150] if st0 != 'ok' else 'XForm'}) and the rewritten one {st1} ({x1[:150] if st1 != 'ok' else 'XForm'})"}
     if st0 == "pyxerr":
         if renumber(x0, maps) != x1 and sorted(re.sub(r"\d+", "N", x0)) != sorted(re.sub(r"\d+", "N", x1)):
             return {"i": i, "input": desc, "what": f"different rejection: {x0[:200]!r} vs {x1[:200]!r}"}
-        return {"i": i, "ok": True, "key": ("err", x0[:40]), "n": len(log), "log": log}
+        return {"i": i, "ok": True, "key": ("err", x0[:40]), "n": len(log), "log": log, "carrier": carrier}
     if renumber(x0, maps) != x1:
         import xf
         ordered = not any("choices: columns permuted" in l or "Choices: columns permuted" in l or "CHOICES: columns permuted" in l for l in log)
@@ -486,7 +545,7 @@ def _check(args):
     wa, wb = sorted(canon_warning(renumber(w, maps)) for w in w0), sorted(canon_warning(w) for w in w1)
     if wa != wb:
         return {"i": i, "input": desc, "what": f"warnings differ: {[w for w in wa if w not in wb][:3]} vs {[w for w in wb if w not in wa][:3]}"}
-    return {"i": i, "ok": True, "key": hash(x0), "n": len(log), "log": log}
+    return {"i": i, "ok": True, "key": hash(x0), "n": len(log), "log": log, "carrier": carrier}
 
 
 def oracle(seed, tier, searching=False):
@@ -505,7 +564,8 @@ def oracle(seed, tier, searching=False):
             kinds[k] = kinds.get(k, 0) + 1
     return {
         "evaluations": len(res), "distinct_nontrivial": len({r["key"] for r in oks if r["n"] > 0}),
-        "rule": "generated workbooks (xlsx) rewritten by 1-5 of: header case/spacing, column aliases, language-delimiter style, question-type aliases, "
+        "carriers": {c: sum(1 for r in res if r.get("carrier") == c) for c in ("xlsx", "csv", "md")},
+        "rule": "generated workbooks (three in five as xlsx, the others as csv or md text; blank rows also directly under the header row) rewritten by 1-5 of: header case/spacing, column aliases, language-delimiter style, question-type aliases, "
                 "truth values, smart quotes, extra whitespace in survey cells, sheet-name case, column/sheet permutation, extra underscore/unrelated "
                 "sheets, unknown survey columns, plus blank rows in survey/choices; original and rewritten workbook must both convert or both be "
                 "rejected, give the same XForm text and the same warnings once quoted row numbers (and helper names embedding them) are shifted "
@@ -523,10 +583,15 @@ def replay_finding(slug):
 def replay(path: Path) -> int:
     payload = json.loads(Path(path).read_text())
     inp = payload["input"]
-    st0, x0, w0 = run(inp["base"])
-    st1, x1, w1 = run(inp["transformed"])
+    carrier = inp.get("carrier", "xlsx")
+    maps = {sh: {int(k): v for k, v in m.items()} for sh, m in (inp.get("row_maps") or {}).items()}
+    st0, x0, w0 = run(inp["base"], carrier)
+    st1, x1, w1 = run(inp["transformed"], carrier)
     import xf
     same = st0 == st1 and (st0 != "ok" or (xf.semantic_canon(re.sub(r"\d+", "N", x0), False) == xf.semantic_canon(re.sub(r"\d+", "N", x1), False) and len(w0) == len(w1)))
+    if same and st0 == "ok" and "row_maps" in inp:      # the row numbers too: shifted by exactly the rows inserted above
+        same = (xf.semantic_canon(renumber(x0, maps), False) == xf.semantic_canon(x1, False)
+                and sorted(canon_warning(renumber(w, maps)) for w in w0) == sorted(canon_warning(w) for w in w1))
     print(inp.get("transformations"))
     if not same:
         print(f"VIOLATION property={PID} replay={path}")
